@@ -146,7 +146,9 @@ func runC07(c *Ctx) {
 	c.Rule("C07.E", "the polling loop shares no wait with its workers; one goroutine per request; one garbled ID does not fail the list", 4)
 	ruleListNotRejectedForOneElement(c, p, "C07.E")
 	ruleWorkerPerRequest(c, p, "C07.E")
-	c.Rule("C07.I", "offsets are applied to the value they were found in; possibly-nil pointers are tested before use", 4)
+	c.Rule("C07.I", "offsets are applied to the value they were found in; possibly-nil pointers are tested before use; externally supplied indices are bounded below; a response returned with an error is not dereferenced", 6)
+	ruleExternalIndexInBounds(c, p, "C07.I", "agent/websockets", "agent/utils", "agent/sessions", "agent/banner", "agent")
+	ruleResponseDerefOnErrorPath(c, p, "C07.I", "agent/websockets", "agent/utils", "agent", "agent/sessions", "agent/banner")
 	ruleIndexSliceAgreement(c, p, "C07.I", "agent/websockets", "agent/banner", "agent/utils", "agent/sessions")
 	ruleMayNilDeref(c, p, "C07.I", "agent/websockets.(*Connection).SendClientMessage", "agent/websockets.(*Connection).ReadServerMessages", "agent/websockets.NewConnection")
 	if f := c.need(p, "C07.E", "agent.pollForNewRequests"); f != nil {
@@ -426,6 +428,7 @@ func runC07(c *Ctx) {
 	// the 502 is written by the reverse proxy's own error path: no field of the proxy other
 	// than the reasoned ones is set (a custom ErrorLog/ErrorHandler can block or skip it) (= C14.P)
 	ruleReverseProxyFields(c, p, "C07.G")
+	ruleNoMutationOfHTTPDefaults(c, p, "C07.G")
 }
 
 // writesStatus: i writes HTTP status `code` (WriteHeader(code) or http.Error(..., code)).
@@ -542,6 +545,35 @@ func classifyState(c *Ctx, p *Prog, rule, id, kind, typ, field string, guarded m
 	if len(muts) == 0 {
 		c.OK(rule, id, p, 0, kind+": never mutated outside its constructor/initialiser — read-only shared state")
 		return
+	}
+	// a cache wrapped in a new type whose every instance holds an LRU that never leaves the
+	// goroutine that made it (the poller's dedup cache behind a small seen-IDs type)
+	if strings.Contains(kind, "lru.Cache") {
+		nst, conf := 0, true
+		for _, fn := range p.AllFuncs {
+			if !p.IsModFunc(fn) {
+				continue
+			}
+			EachInstrRaw(fn, func(i ssa.Instruction) {
+				st, isSt := i.(*ssa.Store)
+				if !isSt {
+					return
+				}
+				fa, isFA := st.Addr.(*ssa.FieldAddr)
+				if !isFA || NamedTypeRel(fa.X.Type()) != typ || objName(structOf(fa.X.Type()).Field(fa.Field)) != field {
+					return
+				}
+				nst++
+				call, isC := st.Val.(*ssa.Call)
+				if !isC || CalleeName(call.Common()) != "github.com/golang/groupcache/lru.New" || !IsNewType(fa.X.Type()) || lruConfinement(p, call) != "" {
+					conf = false
+				}
+			})
+		}
+		if nst > 0 && conf {
+			c.OK(rule, id, p, 0, kind+": every instance wraps an LRU that never leaves the goroutine that created it (confinement followed through the wrapper type)")
+			return
+		}
 	}
 	c.Bad(rule, id, p, 0, kind+" mutated at "+strings.Join(muts, ", ")+" but neither in the guard table nor per-request: unguarded shared mutable state can crash the agent (concurrent map access is a fatal error)")
 }
